@@ -72,6 +72,10 @@ func TestC20ReadForeign(t *testing.T) {
 			maxSz = 20 * chunk // keep the number of chunks (and encoder calls) bounded
 		}
 		b := gen.DrawBlob(t, "blob", 1, maxSz)
+		if chunk > gen.MiB && rapid.Bool().Draw(t, "bigChunkFilled") {
+			// a chunk that really holds more than this build's own 1 MiB chunks
+			b = gen.MakeBlob(rapid.Uint64Range(0, 50).Draw(t, "bigSeed"), rapid.IntRange(gen.MiB+1, 3*gen.MiB+5000).Draw(t, "bigSize"), rapid.SampledFrom([]string{"rand", "text", "mixed"}).Draw(t, "bigContent"), ">1MiB-in-one-chunk")
+		}
 		enc := drawEncoder(t)
 		suffix := rapid.StringMatching(`[0-9a-zA-Z]{1,12}`).Draw(t, "suffix")
 		kind := rapid.SampledFrom([]string{"cas-zstd", "cas-zstd", "cas-zstd", "cas-identity-hdr", "cas-v1", "ac", "raw"}).Draw(t, "kind")
